@@ -59,3 +59,65 @@ Theorem C16_read_success_eq_fresh : forall E G en o fs n id' n' p r sg fr fr',
   observe (observed_names (effective E r)) (f_self fr) = observe (observed_names (effective E r)) (f_self fr').
 Proof. exact read_success_eq_fresh. Qed.
 Print Assumptions C16_read_success_eq_fresh.
+
+(* ---------------------------------------------------------------------------------------------------
+   Heap level.  The statements of read / readStr between the parse and the return, run by the heap
+   interpreter HM.hrun_read (Model/C16_Heap.v) over the SAME generated lists on a C08 world: target,
+   parser result, their atoms and lattice objects are heap objects; `_lattice` is the lat field of the
+   OStruct; `self[:] = new` is the C08 slice assignment (Proofs/C16_HeapC08.v).  HB.hpre s: the world
+   satisfies the C08 invariant Inv, the target is a Structure with a lattice, the parser result (if the
+   parser returned one) is another Structure object of the same world.  No guard-flag hypothesis. *)
+From DS Require Model.C08_StructHeap Model.C16_Heap Proofs.C16_HeapBridge.
+Module H := C08_StructHeap.
+Module HM := C16_Heap.
+Module HB := C16_HeapBridge.
+
+(* every item of the target refers to the target's lattice object, which IS the result's lattice object;
+   the result keeps its items, and its atoms keep referring to that lattice *)
+Theorem C16_heap_atoms_point_to_target_lattice : forall E G c en s s',
+  HB.hpre s -> HM.hrun_read E G c en s = Some s' ->
+  exists its L,
+    H.get_struct (HM.hs_world s') (HM.hs_self s) = Some (its, L) /\
+    (forall a, In a its -> H.lat_of (HM.hs_world s') a = Some L) /\
+    HM.new_lat s' = Some L /\ HM.new_items s' = HM.new_items s /\
+    ((forall a, In a (HM.new_items s) -> H.lat_of (HM.hs_world s) a = HM.new_lat s) ->
+       forall a, In a (HM.new_items s') -> H.lat_of (HM.hs_world s') a = Some L).
+Proof. exact HB.heap_atoms_point_to_target_lattice. Qed.
+Print Assumptions C16_heap_atoms_point_to_target_lattice.
+
+(* the target's atoms after the read are all newer than every atom that existed before: nothing is shared
+   with the parser's result or with the old content (premise: the result holds no atom of the target) *)
+Theorem C16_heap_result_atoms_are_copies : forall E G c en s s',
+  HB.hpre s -> (forall a, In a (HM.new_items s) -> ~ In a (HM.self_items s)) ->
+  HM.hrun_read E G c en s = Some s' ->
+  forall x, In x (HM.self_items s') -> (List.length (H.heap (HM.hs_world s)) <= x)%nat.
+Proof. exact HB.heap_result_atoms_are_copies. Qed.
+Print Assumptions C16_heap_result_atoms_are_copies.
+
+(* two targets with ANY prior contents (in particular one of them brand-new, Proofs/C16_HeapExamples.v)
+   that read the same thing (HB.same_result: same payload sequence, cell, instance entries and space group
+   of the parser result, or None in both) end with the same payload sequence, the same lattice cell, the
+   result's lattice object as their lattice with every item referring to it, and the same title / pdffit /
+   xcfg / parsed entries *)
+Theorem C16_heap_read_success_eq_fresh : forall E G c en s t s' t',
+  HB.hpre s -> HB.hpre t -> HB.same_result s t ->
+  HM.hrun_read E G c en s = Some s' -> HM.hrun_read E G c en t = Some t' ->
+  HM.self_payloads s' = HM.self_payloads t' /\ HM.self_cell s' = HM.self_cell t' /\
+  HM.self_lat s' = HM.new_lat s' /\ HM.self_lat t' = HM.new_lat t' /\ HM.points_b s' = true /\ HM.points_b t' = true /\
+  forall a, In a (HB.meta_names (HB.eff_new_meta s)) -> getattr (HM.hs_meta s') a = getattr (HM.hs_meta t') a.
+Proof. exact HB.heap_read_success_eq_fresh. Qed.
+Print Assumptions C16_heap_read_success_eq_fresh.
+
+(* The abstract transaction model simulates the heap model, statement by statement: with
+   abs : heap state -> abstract object (items -> atoms with a_id = heap identity, a_payload = enc of the
+   payload tag for ANY enc : pay -> Z, a_lat = code of the lattice reference; instance dictionary =
+   `_lattice` built from the OStruct lat field + the non-heap entries) every heap statement between the
+   parse and the return commutes with its abstract transformer EXACTLY (no renaming of identities: the
+   abstract copy counter is started at the heap's allocation point).
+   Partial: the composition over the whole generated list is not stated as one theorem; the slice
+   assignment is simulated under the premise that the target's lattice already is the result's lattice
+   (true after the dictionary update, i.e. in the generated order). *)
+From DS Require Proofs.C16_HeapSim.
+Theorem C16_heap_statements_simulated_partial : forall enc, C16_HeapSim.statement_simulation enc.
+Proof. exact C16_HeapSim.statements_simulated. Qed.
+Print Assumptions C16_heap_statements_simulated_partial.
